@@ -43,11 +43,10 @@ def main():
             ok, log, secs = V.lean_build(prop)
             lean.update(build_ok=ok, build_log=log, build_s=round(secs, 1))
             lean["source_hits"] = V.source_audit()
-            if ok:
-                res = V.axiom_audit(prop)
-                lean["axioms"] = res[0] if res else {}
-            else:
-                lean["axioms"] = {n: None for n in V.theorems_of(prop)}
+            # also after a failed build: the audit is per module, so only the theorems of modules that did not
+            # build are reported as unchecked
+            res = V.axiom_audit(prop)
+            lean["axioms"] = res[0] if res else {}
             if a.tier == "thorough" and ok:
                 lean["leanchecker"] = V.leanchecker(prop) if hasattr(V, "leanchecker") else None
         else:
